@@ -313,12 +313,15 @@ class Verifier:
             frame_locals["self"] = selfv
         for name, ty in self.param_types(I, c, fnode, relpath):
             frame_locals[name] = I.fresh(ty, name)
+        ghost_vals = {g: I.fresh(parse_type(t), g) for g, t in c.ghost_params.items()}
         if fnode.args.vararg is not None:
             frame_locals[fnode.args.vararg.arg] = VTuple([])
         if fnode.args.kwarg is not None:
             frame_locals[fnode.args.kwarg.arg] = I.new_dict([])
         frame = E.Frame(relpath, ci, frame_locals, None, qual)
         sframe = E.Frame("<spec>", ci, dict(frame_locals), None, "spec")
+        sframe.locals.update(ghost_vals)
+        run.ghost.update(ghost_vals)
         I.spec_frame = sframe
         I.root_frame = frame
         # ---- fields taken from a symbolic run of the real constructor with default arguments (e.g. constant tables)
